@@ -7,6 +7,21 @@ HERE = Path(__file__).resolve().parent.parent
 
 # id: (level, technique, level text, level note)
 CHECKS = {
+ 'C12': ('exploration',
+         'NumPy reference model + ownership inspection + /proc fd/map census after every access + forked durability children',
+         'Generated sequences of reads and assignments with index expressions composed from an enumerated pool (basic, '
+         'advanced, malformed) run on real arrays of rank 1-4, outside and inside open_array(); each result is compared with '
+         'the NumPy reference (value, shape, dtype, error class), inspected for detachment from the memory map, and after '
+         'every access the process is searched for descriptors or mappings of the array. Results kept across overwrite / '
+         'truncate / delete / re-creation of a 2.4 MB array are re-read in a forked child whose exit status is observed.',
+         'Scalar results are compared as 0-d arrays; error classes up to subclass relation.'),
+ 'C19': ('exploration',
+         'bounded-exhaustive schedule enumeration, one forked child per schedule; wait status + value model + fd/map census',
+         'Every well-formed interleaving up to a length bound of generator starts/advances/closes, context entries/exits, '
+         'element reads and writes on one Array object (2-3 generators, nested contexts), completed by every order of '
+         'finishing the survivors, runs in its own forked child on a 4.8 MB array: death by signal, a chunk or element '
+         'differing from the model at that moment, a lost write, or an fd/mapping left open at the end is a violation.',
+         'Interleavings are single-threaded by construction; multi-threaded use of one Array is not a stated property.'),
  'C11': ('exploration',
          'directory-snapshot monitor over the complete entry-point x origin-of-mode x state matrix',
          'Every mutating entry point of Array and RaggedArray is called through a handle whose mode r was obtained in each '
